@@ -10,6 +10,10 @@ C = {
          "explicit-state exhaustive enumeration of the day-number space and (year, position, n) space on the implementation, reference-model oracle"),
  "C03": ("Timestamp round trip and field read-back on every day x 5 second classes (thorough; windows + lattice quick), every second of 12 whole days, a dense out-of-range menu (panic iff out of range), and ==/</cmp plus the sign of all nine *_since on every ordered pair of ~1500 (thorough 11 000) boundary instants under 25 offset pairs, against i128 instants.",
          "exhaustive enumeration of bounded timestamp and instant-pair x offset-pair spaces on the implementation, i128 reference oracle"),
+ "C04": ("Every add_/sub_ of 7 units and the Duration/Time operators on the full cross product of boundary instants x offsets x boundary counts, the complete 2^32 count axis for every unit from three base instants (thorough; 1/65537 lattice quick), plus a stateright BFS over all operation sequences to depth 2 (3 thorough) from 80 initial states; oracle: exact i128 instant arithmetic, offset unchanged, panic iff not representable.",
+         "exhaustive enumeration of alphabet cross products and complete count axes + explicit-state BFS (stateright) over operation sequences, on the implementation, i128 reference oracle"),
+ "C08": ("Every second of the day x sub-second bounds x boundary counts x 12 operations, complete count axis (thorough), all ordered pairs of a 4320-point grid for Time +/- Time, Duration menu up to u64::MAX s, Time::from(DateTime) on boundary instants x offsets, constructors, plus a stateright BFS over operation sequences to depth 3 (4 thorough) with the invariant as_nanos() < 1 day and canonical equality on every reached state.",
+         "exhaustive enumeration + explicit-state BFS (stateright) over operation sequences on the implementation, modular-arithmetic reference oracle"),
  "C15": ("Full cross products of boundary alphabets for every fallible constructor and all 10 setters, complete 2^32 sweeps of Time::from_seconds and Offset::from_seconds; Ok iff reference-valid and reads back its arguments, Err is OutOfRange, and a stated range is checked against the set of values the real function accepts for the named parameter.",
          "exhaustive enumeration of boundary-alphabet cross products and complete u32/i32 argument axes on the implementation, validity oracle"),
 }
